@@ -325,6 +325,11 @@ def thm_fn(name, params, requires, body, asserts, tagprefix):
     for k, a in enumerate(asserts):
         s += '    assert(%s); // @thm %s/%s.%d\n' % (a, tagprefix, name, k)
     s += '}\n'
+    if requires:
+        # reachability twin: same preconditions and body; `assert(false)` must fail (the driver checks that it does)
+        s += '// @fn thm/%s__reach\npub fn %s__reach(%s)\n    requires\n' % (name, name, ', '.join(params))
+        s += ''.join('        %s,\n' % r for r in requires)
+        s += '{\n' + body + '\n    assert(false); // @probe reach:%s\n}\n' % name
     return s
 
 
